@@ -58,15 +58,18 @@ CLAIMED = {
          "comments are filtered before parsing and never mentioned by the parser; LF and CRLF create the same token; output is normalised to LF "
          "unconditionally; 1-tuples are folded; spaces count as indentation only before the first token, newline resets unconditionally.",
          "The invariance of the whole indentation automaton under every trivia placement is not decided (that is executing the machine).", "5/C14"),
- "C18": ("path enumeration of the lexer's fixed-spelling arms composed with the Display and keyword tables + caret-advance shape rules + must-call on MIR",
+ "C18": ("path enumeration of the lexer's fixed-spelling arms composed with the Display and keyword tables + finite-domain folding of the caret / indent arithmetic (rules/smalleval.py) + must-call on MIR",
          "Decides consumed = spelled on every one of the 44 fixed-spelling lexer paths, printed form = lexeme + consumed delimiters for the 7 variable "
-         "tokens, the keyword round trip (38 rows), pairwise distinct spellings, caret advance by width and line count in State::token and Lex::new, "
-         "flush_indents and exactly one Eof on the Ok path of tokenize, verbatim re-lexing and offsetting of interpolations.",
-         "Indent/Dedent balance for indentation that is not a multiple of four and byte-vs-char columns for non-ASCII text are not decided.", "5/C18"),
+         "tokens, the keyword round trip (38 rows), pairwise distinct spellings; the end of a token = (line + number of line breaks, 1 + characters after the last break) "
+         "computed by one function that both Lex::new and State::token use, widths in characters; Indent/Dedent/flush counts telescope for all column pairs 1..17; "
+         "Indent tokens cover the leading spaces of their level; the interpolation offset is a caret that runs along the literal, applied to nested tokens and nested errors, "
+         "shifting the column on the first line only; flush_indents and exactly one Eof on the Ok path of tokenize.",
+         "Order of the batched newline tokens is a known finding (D56); what the parser does with unbalanced-looking but balanced streams is not part of this property.", "5/C18"),
  "C19": ("provenance tracing of every rendered error on the syntax + non-emptiness of every Err(vector) + renderer obligations from the MIR panic census + index/label agreement of quoted lines",
          "Decides: every error rendered by mamba_to_python passed with_source of its own file (one known finding: context errors), per-file lists are "
          "only zipped with lists of equal length, every Err carrying a vector is built from a provably non-empty one (120 sites), the renderers' "
-         "panic obligations are discharged, the quoted text is line label-1 of str::lines and the lexer counts lines where lines() splits.",
+         "panic obligations (of everything the renderers reach) are discharged, index and label of each quoted line agree for reported lines 1..6 (folded), the lexer counts lines where lines() splits, "
+         "the text that is parsed is the text that is attached (no transformation between reading, lexing and with_source), and the lexer's line bookkeeping rules of C18.",
          "`Some diagnostic is on line L` needs the checker's behaviour and is not decided.", "5/C19"),
  "C15": ("census of identifier-compared strings against the documented table + lexer charset + call-resolution order + no textual matching on rendered code",
          "Decides that no undocumented name is special-cased anywhere in check:: or generate:: (52 strings today, each documented), that the internal "
